@@ -22,8 +22,8 @@ class C02(Prop):
         from .. import unigen
         un = n // 2
         return [Suite("ring", ringgen.HEADER, cases), Suite("fsring", ringgen.HEADER, fs),
-                Suite("uni_move_atomic", unigen.HEADER, [unigen.gen_case(rng, "move_atomic") for _ in range(un)]),
-                Suite("uni_move_full_sync", unigen.HEADER, [unigen.gen_case(rng, "move_full_sync") for _ in range(un)]),
+                Suite("uni_move_atomic", unigen.HEADER, [unigen.gen_case(rng, "move_atomic") for _ in range(un)] + [unigen.gen_preempt_case(rng, "move_atomic") for _ in range(un // 5)]),
+                Suite("uni_move_full_sync", unigen.HEADER, [unigen.gen_case(rng, "move_full_sync") for _ in range(un)] + [unigen.gen_preempt_case(rng, "move_full_sync") for _ in range(un // 5)]),
                 Suite("uni_move_atomic_entry_points", unigen.XHEADER, [unigen.gen_entry_case(rng, "move_atomic", Ns=(2, 4)) for _ in range(un)])
                 ] + unigen.oracle_only_suites(rng, un, Ns=(2, 2, 4))
     def oracle(self, case, recs):
